@@ -2487,7 +2487,7 @@ class Model:
             # Convert from duration to equivalent probability
             elif par.units == FS.QUANTITY_TYPE_DURATION:
                 try:
-                    converted_frac = self.dt / (transition * par.timescale)
+                    converted_frac = min(self.dt / max(transition * par.timescale, 1e-300), 1e100)  # Cap the fraction so that a vanishing duration cannot overflow to inf (which results in NaN flows), as for number units above
                 except Exception as e:
                     raise ModelError(f"Error when converting the parameter {par} to a per timestep value.") from e
                 for link in par.links:
